@@ -5,18 +5,24 @@
    invalid UTF-8 byte, a multi-byte character).  Symbols, concretised by the Go driver:
      "Q" double quote  "'"  "B" backslash  "/"  "*"  "{"  "}"  ";"  "="  "0"  "x"  "."  "a"
      "N" LF  "T" TAB  "Z" NUL  "X" the byte 0x80  "3" a 3-byte character
-   With -simulate the same spec yields random longer strings. *)
+   With -simulate the same spec yields random longer strings.
+   bom = TRUE: the driver puts the UTF-8 byte order mark EF BB BF in front of the string.  The BOM
+   is not part of the text: the line table (and every position that "exists") is that of the
+   string without it. *)
 EXTENDS SrcLines, TLC, Json
-CONSTANTS MaxLen, Alphabet, ExportMin
-VARIABLE text
-vars == <<text>>
+CONSTANTS MaxLen, Alphabet, ExportMin,
+          Boms,        \* subset of BOOLEAN
+          BomMaxLen    \* maximal length of a string that is preceded by a byte order mark
+VARIABLES text, bom
+vars == <<text, bom>>
 
-Init == text = <<>>
-Next == /\ Len(text) < MaxLen
+Init == text = <<>> /\ bom \in Boms
+Next == /\ Len(text) < (IF bom THEN BomMaxLen ELSE MaxLen)
         /\ \E c \in Alphabet : text' = Append(text, c)
+        /\ UNCHANGED bom
 Spec == Init /\ [][Next]_vars
 
-Case == [text |-> text, nlines |-> NLines(text), widths |-> LineTable(text)]
+Case == [bom |-> IF bom THEN 1 ELSE 0, text |-> text, nlines |-> NLines(text), widths |-> LineTable(text)]
 
 (* spec-level sanity of the line table: widths of all lines plus the LFs account for every
    character when there is no TAB (a TAB only ever makes a line wider) *)
